@@ -102,12 +102,13 @@ def first_two(rows):
 
 # --------------------------------------------------------------- transitions
 
-def open_apply(ms, app, mid, side, now, for_np=False):
-    """Open semantics.  Returns 'ok' | 'crowded' | 'foreign' (id lives in another app)."""
+def open_apply(ms, app, mid, side, now, for_np=False, per_app=False):
+    """Open semantics.  Returns 'ok' | 'crowded' | 'foreign' (id lives in another app;
+    with per_app the id is scoped per app as the protocol document says)."""
     k = (app, mid)
     mb = ms["mbs"].get(k)
     if mb is None:
-        if any(kk[1] == mid for kk in ms["mbs"]):
+        if not per_app and any(kk[1] == mid for kk in ms["mbs"]):
             return "foreign"
         mb = {"updated": now, "for_np": for_np, "sides": [], "msgs": []}
         ms["mbs"][k] = mb
